@@ -32,7 +32,8 @@ ASSUMPTIONS = [
 REAL_STUB = {"real": ["osyris.Datagroup", "osyris.Array", "osyris.Vector"], "stub": []}
 KEYS = ["a", "b", "c", "d", "e", "f"]
 NS = 2
-DT = {"f8": np.float64, "f4": np.float32, "i8": np.int64, "i4": np.int32}
+DT = {"f8": np.float64, "f4": np.float32, "i8": np.int64, "i4": np.int32, "u1": np.uint8, "u2": np.uint16, "u8": np.uint64, "i1": np.int8, "b1": np.bool_}
+NARROW = ("u1", "u2", "u8", "i1", "b1")
 
 
 def prepare(tier):
@@ -48,7 +49,7 @@ def gen_member(rng, mid, n):
     kind = rng.choice(["arr", "arr", "arr", "arr", "arr", "arr", "vec", "vec", "arr2"])
     order = list(range(max(n, 1)))
     rng.shuffle(order)
-    return {"kind": kind, "nc": rng.choice([1, 2, 3]) if kind == "vec" else (rng.choice([2, 3]) if kind == "arr2" else 1), "dtype": rng.choice(["f8", "f8", "f4", "i8", "i4"]),
+    return {"kind": kind, "nc": rng.choice([1, 2, 3]) if kind == "vec" else (rng.choice([2, 3]) if kind == "arr2" else 1), "dtype": rng.choice(["f8", "f8", "f8", "f4", "i8", "i4"] + (list(NARROW) if kind == "arr" else [])),
             "unit": rng.choice(["", "m", "g", "cm/s"]), "mid": mid, "order": order}
 
 
@@ -130,6 +131,13 @@ def stamp(m, n):
     """Literal values of a member for n rows: unique, exactly representable in every dtype."""
     L = len(m["order"])
     base = [m["mid"] * 200 + m["order"][i % L] + 20 * (i // L) for i in range(n)]
+    if m["dtype"] in NARROW:
+        # narrow, unsigned and boolean members: values inside the dtype's range (not unique per member: rows are attributed
+        # through the other members); int8 values span the range so that neighbouring differences overflow
+        small = [m["order"][i % L] + 13 * (i // L) for i in range(n)]
+        vals = {"u1": [(7 * v + m["mid"]) % 251 for v in small], "u2": [(977 * v + m["mid"]) % 65521 for v in small], "u8": [v * 3 + m["mid"] for v in small],
+                "i1": [((37 * v + m["mid"]) % 251) - 125 for v in small], "b1": [bool((v + m["mid"]) % 3 == 0) for v in small]}[m["dtype"]]
+        return [np.array(vals, dtype=DT[m["dtype"]])]
     comps = []
     for c in range(m["nc"]):
         comps.append(np.array([b + 20000 * c for b in base], dtype=DT[m["dtype"]]))
